@@ -63,6 +63,34 @@ CLAIMED.update({
         technique="Coq invariant over the reference semantics + API-layer safety over SearchOK + differential correspondence under catch_unwind", design="7/C05"),
 })
 
+PARSER_NOTE = "The parser model (coq/Model/Parse.v, a line-by-line port of parse.rs with explicit Panic/Fuel outcomes) is tied to the real parser by T1 on every run: tree, backrefs, named groups, error kind AND position must agree on the generated stream."
+CLAIMED.update({
+    "C04": dict(
+        text="PARTIAL. The regex crate is a dependency and is not modelled. Machine-checked (Coq, closed): fancy-regex's API layer implements the documented iteration / split / replacement behaviour over any SearchOK search (C04_iter_spec, C04_split_spec, C04_replace_spec = the C08/C10/C11 theorems). The agreement with the regex crate itself is decided differentially: every public search API of fancy_regex::Regex against regex::Regex on generated common-syntax patterns (classes, anchors, word boundaries, groups, named groups, flags, greedy/lazy quantifiers), splitn limits 0..3, replacen limits 0..3 x six replacers.",
+        note="Known finding F1: a word boundary forces the VM to interpret a nullable unbounded repeat whose empty-iteration rule differs from the regex crate's. Not provable here: that regex-syntax gives to_str(parse p) the meaning of p.",
+        technique="Coq API-layer theorems + differential testing against the regex crate (the comparison target cannot be modelled)", design="7/C04"),
+    "C06": dict(
+        text="PARTIAL. Machine-checked (Coq, closed): every size the analysis computes is at most usize::MAX whatever numerals the pattern contains, i.e. the saturating arithmetic cannot overflow (C06_sizes_bounded); to_str never reaches its panic arm on expressions the analysis judges easy (C06_to_str_total); the parser model runs on fuel linear in the pattern length (C06_fuel_is_linear). " + PARSER_NOTE + " The property is evaluated on the real Regex::new under catch_unwind with overflow checks ON and a 3 GB address-space limit over a malformed-pattern stream (all 1- and 2-sequences of ~95 syntax fragments incl. huge numbers and multi-byte characters, random longer ones, mutations of valid patterns): no panic/crash, error positions within the pattern.",
+        note="NOT proved: that no panic arm of the parser is reachable and that the linear fuel suffices for every string (validated by T1: the model reports Panic/Fuel as outcomes and must agree with the real parser), time/memory proportionality, native stack depth, regex-automata's own limits (runtime behaviour).",
+        technique="Coq lemmas on the analysis arithmetic and printer + differential correspondence of a parser model + fault-injection-style stream under resource limits", design="7/C06"),
+    "C14": dict(
+        text="REFUTED on the unchanged tree for the builder options other than backtrack_limit (three known findings, reported as KNOWN-FINDING with witnesses: F-builder-casei, F-builder-casei-inner, F-builder-limits); any other disagreement is a VIOLATION. Machine-checked (Coq, closed): the backtrack limit acts uniformly on every program (C14_limit_is_uniform = C07) and on the parser model the inline flag (?i) reaches exactly its documented scope (C14_casei_spelling_on_model, by computation). The property is evaluated on the real crate: RegexBuilder::case_insensitive(true) on P against the pattern (?i)P on mixed-case patterns x texts over {a,A,b,B}, and the delegate size limits (alone and combined) on big/small plain/fancy patterns.",
+        note="The builder options are not inputs of the hand-written model because the code does not use them on the VM path; the findings are keyed by class (VM-compiled pattern / inner (?-i:) in a delegated pattern / size limits on VM delegates).",
+        technique="Coq theorems on the limit and the parser model + metamorphic differential on the real crate with known-finding classes", design="7/C14, 8"),
+    "C17": dict(
+        text="PARTIAL. Machine-checked (Coq, closed): escape borrows iff no special byte (C17_escape_borrow); removing one backslash before each quoted byte of push_quoted(s) gives back s, for every byte string (C17_quoted_shape); is_special — regenerated from the source on every run — covers every byte the fancy parser dispatches on (C17_specials_cover_parser, by computation). " + PARSER_NOTE + " Evaluated on the real crate: for all strings up to length 2 over the meta-characters plus letters, digits, whitespace, 2-4 byte characters and regex-syntax's extra meta characters (and random longer ones): escape output and borrow flag equal the model's, parse(escape(s)) is the chain of one-character literals of s, Regex::new(escape(s)).find(t) equals str::find, and escape(s) embedded in plain and fancy hosts compiles.",
+        note="NOT proved: parse(escape(s)) = literals(s) as a theorem over the parser model (established by T1 + enumeration); that regex-syntax accepts the quoting (dependency).",
+        technique="Coq induction on the quoted string + finite computation over the regenerated special-character table + exhaustive short-string enumeration", design="7/C17"),
+    "C18": dict(
+        text="PARTIAL. Machine-checked (Coq, closed): in the API model a search is a function of (regex, text, offset, flags, limits) that returns the regex unchanged (C18_pure), so in any history of calls on one regex, from any number of clients in any interleaving, call k returns what that call returns alone (C18_history_free). The translator scans the non-test, non-hook source for interior mutability (none allowed). Runtime part (data races, deadlock, regex-automata's cache pool) cannot be exhibited by a Gallina model: 2..16 threads on one shared Regex and on clones, each result compared with the single-threaded answer before and after.",
+        note="Partial by nature: thread interleavings and the dependency's Pool are covered only by the concurrent runs.",
+        technique="Coq purity / history-freedom of the API model + source scan + concurrent differential runs", design="7/C18"),
+    "C19": dict(
+        text="PARTIAL. Machine-checked on the parser model (Coq, closed): the escape table (\\h \\H \\e \\A \\z, hex and unicode forms, control escapes) parses to the trees of its expansions (C19_escape_table, by computation over the whole finite table), every two-digit \\xHH equals \\x{HH} (C19_hex_forms, all 256), possessive quantifiers equal atomic groups for the whole quantifier family on a fixed atom (C19_possessive_is_atomic), and a (?#...) comment body of ANY length is skipped (C19_comment_skipped, by induction). " + PARSER_NOTE + " The unbounded families are evaluated on the real crate: random trees printed in the base spelling and in each applicable respelling (free-spacing with whitespace and # comments at token boundaries incl. before quantifiers and inside braces, (?#) comments, named / Python-named / relative backrefs, scoped vs inline flags, escape forms, possessive vs atomic): same tree through the real parser and identical search results.",
+        note="NOT proved: parse(print_k e) = e for the unbounded respelling families (printer round-trips over the parser model).",
+        technique="Coq computation over finite spelling families + induction for comment skipping + parser-model correspondence + metamorphic differential", design="7/C19"),
+})
+
 PENDING_REASON = "check not built yet in this revision (see DESIGN.md section 12 build order); not claimed until its theorem and correspondence check exist"
 
 
